@@ -162,6 +162,15 @@ pub fn gen_knobs(t: &mut Tape, faults: &[&str], layout: &Layout) -> SimKnobs {
             k.clocks.push((t.draw(1000) as u64 * 1000, 900 + t.draw(201)));
         }
     }
+    // a sixth of the runs is scheduled PCT-style: strict random priorities with 1-4 change points
+    // (drawn last, so that the rest of the scenario does not depend on it)
+    if t.draw(6) == 5 {
+        k.pct_depth = 1 + t.draw(4);
+        k.pct_span = [200, 2000, 20000][t.draw(3) as usize];
+        // under strict priorities a writer that outranks its reader is woken for every few bytes
+        // of space: tiny socket buffers turn large messages into millions of scheduling steps
+        k.tcp_cap = k.tcp_cap.max(4096);
+    }
     k
 }
 
